@@ -19,7 +19,7 @@ from ..model import render_document, render_sdl, render_json
 
 RULE = ("adversarial (schema, query) texts, one isolated worker process each: fragment-spread cycles of length 1..6 on objects, "
         "interfaces and unions, with and without `__typename`, direct and through fields; mixed-type cycles; recursive input types "
-        "(nullable, list, non-null pairs, self non-null, @oneOf) used as variables; selection / inline-fragment / list-type / "
+        "(nullable, list, non-null pairs, self non-null, @oneOf) used as variables, with and without object-literal default values; selection / inline-fragment / list-type / "
         "default-value nesting 8..64, 200 and 3000; interfaces without implementors, one-member and self-referential unions; "
         "unions that are members of themselves / of each other (cycles of 1..3), unions holding interfaces, interfaces and objects "
         "implementing themselves or each other, each x 10 documents with type conditions on members, on the abstract type itself "
@@ -30,7 +30,7 @@ RULE = ("adversarial (schema, query) texts, one isolated worker process each: fr
         "unmodified controls; distinct by (schema text, query text)")
 
 CPU_LIMIT_S = 20.0
-FLOOR = {"class:spread-cycle": 60, "class:nesting": 20, "class:input-cycle": 5, "class:degenerate": 15, "class:schema-variant": 25,
+FLOOR = {"class:spread-cycle": 60, "class:nesting": 20, "class:input-cycle": 15, "class:degenerate": 15, "class:schema-variant": 25,
          "class:mutated-query": 300, "class:mutated-schema": 300, "exit:ok": 5, "exit:err": 100, "class:after-failure": 25, "after-failure-calls": 100, "class:abstract-cycle": 90}
 
 
